@@ -29,8 +29,8 @@ ASSUMPTIONS = ["names are resolved relative to the array directory; symlink alia
 EXHAUSTIVE = "method x protected target x spelling x flag matrix for Array and RaggedArray"
 METHODS = ['write_txt', 'write_jsonfile', 'write_jsondict', 'update_jsondict', 'delete_files'] + \
           ['open_file:' + m for m in ['w', 'a', 'x', 'r+', 'rb+', 'r+b', 'wb', 'ab', 'w+', 'a+', 'xb']]
-SPELLINGS = ['str', 'Path', './', './/', 'detour', 'detour-values', 'dupsep', 'abs', 'absPath', 'slash', 'dot-mid', 'updown', 'updown2']
-MUST_HIT = ['env:c-locale', 'handle-opened-by-relative-path', 'spell:updown', 'path-recreated-as-other-kind', 'kind:Array', 'kind:Ragged', 'spell:Path', 'spell:./', 'spell:detour', 'target:subdir-file', 'target:dirname', 'target:absent',
+SPELLINGS = ['str', 'Path', './', './/', 'detour', 'detour-values', 'dupsep', 'abs', 'absPath', 'slash', 'dot-mid', 'updown', 'updown2', 'via-other-name', 'ulink']
+MUST_HIT = ['handle-opened-through-symlinked-directory', 'spell:ulink', 'spell:via-other-name', 'm:delete_files:bare', 'env:c-locale', 'handle-opened-by-relative-path', 'spell:updown', 'path-recreated-as-other-kind', 'kind:Array', 'kind:Ragged', 'spell:Path', 'spell:./', 'spell:detour', 'target:subdir-file', 'target:dirname', 'target:absent',
             'target:new-in-subdir', 'user:json', 'user:txt', 'user:overwrite-refused', 'user:delete', 'mixed-delete', 'read-protected-ok'] + \
            ['m:' + m for m in METHODS]
 
@@ -66,6 +66,12 @@ def spell(name, how, base):
         return name + '/'
     if how == 'dot-mid':
         return name.replace('/', '/./') if '/' in name else './././' + name
+    if how == 'via-other-name':
+        # the array directory has two names (x.darr and the symlink 'current' next to it): go up and come back through the OTHER one
+        other = 'x.darr' if os.path.basename(str(base)) == 'current' else 'current'
+        return '../' + other + '/' + name
+    if how == 'ulink':
+        return 'ulink'           # a symbolic link made by the user inside the array directory that points at the protected entry
     if how in ('updown', 'updown2'):
         # up out of the array directory (and of the directory that holds it) and back down again by name; stays inside the scratch tree
         parts = os.path.abspath(base).split(os.sep)
@@ -86,6 +92,8 @@ def call_method(dd, method, name, flag):
         return dd.update_jsondict(name, {'a': 1})
     if method == 'delete_files':
         return dd.delete_files([name])
+    if method == 'delete_files:bare':
+        return dd.delete_files(name)        # the name itself instead of a sequence of names
     mode = method.split(':', 1)[1]
     with dd.open_file(name, mode) as f:
         if 'b' in mode:
@@ -103,6 +111,8 @@ def make(kind, d):
         a = darr.asarray(p, np.arange(8, dtype='int32'), accessmode='r+')
     else:
         a = darr.asraggedarray(p, [[1, 2], [3, 4, 5], []], dtype='float32', metadata={'m': 1}, accessmode='r+')
+    if not os.path.lexists(os.path.join(d, 'current')):
+        os.symlink('x.darr', os.path.join(d, 'current'))       # a second name for the same directory
     return a, p
 
 
@@ -142,6 +152,16 @@ def _exec_prot_inner(ctx, spec, out):
             return out           # 'file/' is not a spelling of a file
         name = spell(tname, how, p)
         out.nontrivial = how != 'str'
+        if how == 'ulink':
+            os.symlink(os.path.join(p, tname), os.path.join(p, 'ulink'))
+        if spec.get('openvia') == 'symlink':
+            # the handle is made through the symbolic link that is the directory's second name
+            import darr
+            out.cls('handle-opened-through-symlinked-directory')
+            sl = os.path.join(os.path.dirname(p), 'current')
+            a = darr.Array(sl, accessmode='r+') if kind == 'Array' else darr.RaggedArray(sl, accessmode='r+')
+            if how == 'via-other-name':
+                name = spell(tname, how, sl)
         if spec.get('openvia') == 'rel':
             # the handle is made from a RELATIVE path, with the working directory where that path starts
             import darr
@@ -160,6 +180,8 @@ def _exec_prot_inner(ctx, spec, out):
         if after != before:
             out.viol('protected-file-modified', tag, f'{method}({name!r}) changed: ' + '; '.join(diff(before, after)))
             return out
+        if method == 'delete_files:bare':
+            return out       # (what a bare name means to delete_files is not stated; it must not destroy anything, which was checked above)
         if not isinstance(exc, OSError):
             out.viol('protected-not-refused', tag, f'{method}({name!r}) -> {type(exc).__name__ if exc else "no exception"}: {exc}')
             return out
@@ -441,6 +463,10 @@ def matrix():
                 yield {'f': 'prot', 'kind': kind, 'm': method, 't': list(t), 's': how, 'flag': flag}
                 if how in ('str', './', 'detour', 'updown', 'updown2', 'abs', 'dot-mid'):
                     yield {'f': 'prot', 'kind': kind, 'm': method, 't': list(t), 's': how, 'flag': flag, 'openvia': 'rel'}
+                if how in ('str', 'Path', 'detour', 'via-other-name', 'updown', 'abs'):
+                    yield {'f': 'prot', 'kind': kind, 'm': method, 't': list(t), 's': how, 'flag': flag, 'openvia': 'symlink'}
+        for t, how in itertools.product(targets(kind), ('str', 'Path', './', 'abs', 'updown')):
+            yield {'f': 'prot', 'kind': kind, 'm': 'delete_files:bare', 't': list(t), 's': how, 'flag': False}
         for t, _ in targets(kind)[:3]:
             for how in ('str', 'Path', './', 'detour'):
                 for pos in ('first', 'last', 'middle'):
